@@ -1,5 +1,7 @@
 """struct model for CrossHair: linear (de)composition with memo of byte decompositions"""
 import re
+import z3
+from crosshair.libimpl.builtinslib import SymbolicInt
 from crosshair.core import proxy_for_type
 from crosshair.util import IgnoreAttempt
 from crosshair.tracers import NoTracing
@@ -90,17 +92,25 @@ def _bytes_of(v, sz):
     k = _key(v)
     if k is not None and (k, sz) in _memo:
         return list(_memo[(k, sz)])
-    bs = []
-    tot = 0
-    for i in range(sz):
-        _ctr[0] += 1
-        b = proxy_for_type(int, 'pk%d' % _ctr[0])
-        if not (0 <= b <= 255):
-            raise IgnoreAttempt('byte range')
-        bs.append(b)
-        tot = tot + b * (256 ** i)
-    if tot != v:
-        raise IgnoreAttempt('decomposition')
+    # fresh byte variables constrained DIRECTLY on the path (no branch): 0 <= b_i <= 255, sum b_i*256^i == v.
+    # Always satisfiable because lo <= v <= hi was established by the caller's range check.
+    with NoTracing():
+        has_var = hasattr(v, 'var')
+    if not has_var:
+        v = int(v)      # not an atomic symbolic integer: realise (a finite fork) and encode concretely
+        return [(v >> (8 * i)) & 0xff for i in range(sz)]
+    with NoTracing():
+        space = context_statespace()
+        vs = []
+        tot = 0
+        for i in range(sz):
+            _ctr[0] += 1
+            b = z3.Int('pk%d' % _ctr[0])
+            space.add(z3.And(b >= 0, b <= 255))
+            vs.append(b)
+            tot = tot + b * (256 ** i)
+        space.add(tot == v.var)
+        bs = [SymbolicInt(b) for b in vs]
     if k is not None:
         _memo[(k, sz)] = bs
     return list(bs)
